@@ -104,7 +104,7 @@ func isComment(s string) bool {
 	switch {
 	case strings.HasPrefix(c, "/*"):
 		return len(c) >= 4 && strings.HasSuffix(c, "*/") && !strings.Contains(c[2:len(c)-2], "*/") && c[2] != '!' && c[2] != '+'
-	case strings.HasPrefix(c, "-- "), strings.HasPrefix(c, "#"):
+	case strings.HasPrefix(c, "-- "), c == "--", strings.HasPrefix(c, "#"):
 		return !strings.ContainsAny(c, "\r\n")
 	}
 	return false
